@@ -515,6 +515,38 @@ def ineq_dqm_case(ctx, r, lines, checks):
     cross = r.random() < .1
     lam = r.choice([F(1), F(2), F(1, 2)])
     label = r.choice(['c', 'k0'])
+    ineq_dqm_eval(ctx, r, lines, checks, method, ncases, names, d, build, terms, cst, lb, ub, cross, lam, label)
+
+
+def ineq_dqm_sweep(ctx, r, lines, checks):
+    """systematic part for the DQM method (log2 / linear): two-case variables whose case 1 carries the coefficient, so that the
+    linear form is that of the BQM sweep; ALL small coefficient vectors x constants x ALL bound pairs around the reach of the
+    terms — in particular every constraint whose tightened range is 0 although lb != ub"""
+    alphabet = ctx.scale([-2, -1, 1, 2], [-3, -2, -1, 1, 2, 3])
+    consts = ctx.scale([0], [-1, 0, 2])
+    for n in range(1, ctx.scale(2, 3) + 1):
+        for vec in itertools.product(alphabet, repeat=n):
+            if n == 3 and list(vec[1:]) != sorted(vec[1:]):
+                continue
+            tu = sum(a for a in vec if a > 0); tl = sum(a for a in vec if a < 0)
+            for c in consts:
+                lo, hi = tl - 1 + c, tu + 1 + c
+                bounds = [(lb, ub) for lb in range(lo, hi + 1) for ub in range(lb, hi + 1)]
+                bounds += [(-(2 ** 63), ub) for ub in range(lo, hi + 1)] + [(lb, 2 ** 63 - 1) for lb in range(lo, hi + 1)]
+                for lb, ub in bounds:
+                    pc = plan_class(vec, c, lb, ub)
+                    if ctx.tier == 'quick' and (pc != 'equality:by-tightening' or r.random() > .5) and r.random() > .04:
+                        continue
+                    names = ['a', 'b', 'c'][:n]
+                    ncases = [2] * n
+                    d = DQM(); build = 'd = DQM()\n'
+                    for v in names:
+                        d.add_variable(2, v); build += f'd.add_variable(2, {v!r})\n'
+                    terms = [(i, 1, a) for i, a in enumerate(vec)]
+                    ineq_dqm_eval(ctx, r, lines, checks, r.choice(['log2', 'linear']), ncases, names, d, build, terms, c, lb, ub, False, F(r.choice([1, 2])), 'c', sweep=True)
+
+
+def ineq_dqm_eval(ctx, r, lines, checks, method, ncases, names, d, build, terms, cst, lb, ub, cross, lam, label, sweep=False):
     st0 = dqm_state(d)
     lin0, quad0, off0, adj0 = state_text(st0)
     line = (f"ineqdqms {method} {','.join(map(str, ncases))} {rat(lam)} {label.encode().hex()} {cst} {lb} {ub} {int(cross)} "
@@ -552,6 +584,8 @@ def ineq_dqm_case(ctx, r, lines, checks):
         if exc != 'ValueError':
             ctx.tick('ineqdqm:raises:' + exc)
     ctx.tick(f'ineqdqm:{method}' + (':raises' if raised else '') + (':cross' if cross else '') + (':preexisting-adj' if any(st0[4]) else ''))
+    if not cross:
+        ctx.tick('ineqdqm:plan:' + plan_class([a for _, _, a in terms], cst, lb, ub) + (':sweep' if sweep else ''))
     ctx.case(('ineqdqm', line), nontrivial=not raised, sample=dict(method=method, terms=repr(call), constant=cst, lb=lb, ub=ub))
     site = 'DQM.add_linear_inequality_constraint'
     cls = f'slack_method={method}' + (', cross_zero=True' if cross else '')
@@ -942,6 +976,7 @@ def run(ctx):
     ineq_bqm_sweep(ctx, r, lines, checks)
     for _ in range(ctx.scale(160, 4000)):
         ineq_dqm_case(ctx, r, lines, checks)
+    ineq_dqm_sweep(ctx, r, lines, checks)
     benc_cases(ctx, r, lines, checks)
     for _ in range(ctx.scale(140, 3000)):
         cqm_case(ctx, r, lines, checks)
